@@ -550,6 +550,15 @@ def real_socket_stage(rep: Report, tier: str, seed: int) -> tuple[list[dict[str,
                 tr["scn"] = {"fam": "real-e2e", "kind": kind, "mode": mode, "n": len(ms)}
                 tr["lens"] = [len(m) for m in ms]
                 results.append(tr)
+        # ... with the listening socket created by the server transport's own run(), messages up to the ISO-TP
+        # maximum of 4095 bytes (8190 characters on the line)
+        big = [bytes([0x36, i]) + bytes((i * 7 + j) % 256 for j in range(n - 2))
+               for i, n in enumerate([3, 1023, 1024, 1025, 2047, 2048, 2049, 3000, 4094, 4095])]
+        for tr in L.run_real(lambda d, kind=kind, ms=big: L.real_end_to_end(kind, ms, "lockstep", d, via_run=True)):
+            tr["feat"] = {"nontrivial": True, "eof": "after-all"}
+            tr["scn"] = {"fam": "real-e2e-run", "kind": kind, "mode": "lockstep", "n": len(big)}
+            tr["lens"] = [len(m) for m in big]
+            results.append(tr)
     rep.extra["real_socket_runs"] = sum(1 for r in results if r["kind"].startswith("real-"))
     return results, pairs
 
@@ -740,7 +749,7 @@ def run(tier: str, seed: int) -> Report:
         "fr_prefix": lambda: tlc.run_tlc("MC_Framing", "MC_Framing_prefix.cfg", timeout=900, workers=4),
         "fr_greedy": lambda: tlc.run_tlc("MC_Framing", "MC_Framing_greedy.cfg", timeout=300, workers=2),
         "ls": lambda: tlc.run_tlc("MC_LinesStream", "MC_LinesStream.cfg", timeout=1800, coverage=True, workers=4),
-        "ls_dev": lambda: tlc.run_tlc("MC_LinesStream", "MC_LinesStream_devS14.cfg", timeout=600, workers=2),
+        "ls_dev": lambda: tlc.run_tlc("MC_LinesStream", "MC_LinesStream_devS14.cfg", timeout=600, workers=1),
     }
     if tier == "thorough":
         jobs["ls_big"] = lambda: tlc.run_tlc("MC_LinesStream", "MC_LinesStream_big.cfg", timeout=1800, workers=6)
